@@ -55,7 +55,17 @@ def _fast_chunk(lines):
                 continue
             res["n"] += 1
             res["g"] += 1 if e.get("g") else 0
+            if res.get("runaway", 0) >= 3:
+                # three calls of this chunk already ran into the time or memory budget: the rest of the chunk would only
+                # repeat that at a minute apiece; the three are reported, the rest is counted as not evaluated
+                res["skipped"] += 1
+                res["n"] -= 1
+                continue
             raised, obs = splitobs.run_split(bib, text, "split")
+            if raised and raised.startswith(("Timeout", "MemoryError")):
+                res["runaway"] = res.get("runaway", 0) + 1
+                res["slow"].append(text)
+                continue
             diff = None
             if raised is None:
                 problem, spans = splitobs.locate(text, obs)
